@@ -1,6 +1,7 @@
 (* Props/C06.v — Outcomes are recorded faithfully and exactly once. *)
 From GK Require Import SysCheck.
 From GK.Proofs Require Import SysSmall.
+From GK.Proofs Require SysProofs RestProofs.
 
 (* Step's result branch takes the OLDEST queued result, calls MarkAsDone for exactly that task with exactly
    that outcome's error text, removes it from the queue and reports it *)
@@ -64,3 +65,23 @@ Theorem C06_reported_once : forall tr s s' id,
   In id (ended s') /\ ~ In id (res_ids s') /\ ~ In id (acc_ids s') /\ ~ In id (sy_running s').
 Proof. exact reported_once. Qed.
 Print Assumptions C06_reported_once.
+
+(* ---- the predicate the check evaluates at quiescence (every finished run recorded with its outcome, reported
+   exactly once) holds of every accepted trace that ends with the dump and has no result queued, whatever faults hit
+   the other calls; a fault at MarkAsDone itself that the driver does not retry leaves the task dispatched
+   (C06_markdone_fault_refuted: the hypothesis is needed as stated; the weaker "update errors are retried" is open) *)
+Theorem C06_predicate_holds_at_rest : forall tr dump now s,
+  let tr' := (tr ++ [LDump dump now true])%list in
+  SysProofs.srun sys_init tr' = Some s -> SysProofs.srun_ok sys_init tr' ->
+  RestProofs.no_markdone_fault tr' = true -> sy_results s = [] ->
+  c06_ok tr' = true.
+Proof. exact RestProofs.C06_predicate_at_rest. Qed.
+Print Assumptions C06_predicate_holds_at_rest.
+
+Theorem C06_markdone_fault_refuted :
+  sys_check scfg_fixed hcfg_fixed sys_init RestProofs.cex_c06_fault 0 = None
+  /\ omap RestProofs.at_rest_b (SysProofs.srun sys_init RestProofs.cex_c06_fault) = Some true
+  /\ RestProofs.no_markdone_fault RestProofs.cex_c06_fault = false
+  /\ c06_ok RestProofs.cex_c06_fault = false.
+Proof. exact RestProofs.C06_rest_refuted. Qed.
+Print Assumptions C06_markdone_fault_refuted.
